@@ -158,13 +158,9 @@ impl SourceFile {
         included: Vec<SourceFile>,
         include_error: Option<IncludeError>,
     ) -> SourceFile {
-        let file_path = match fs::canonicalize(file_path.as_ref()) {
-            Ok(file_path) => file_path,
-            Err(_) => {
-                assert!(include_error.is_some());
-                file_path.as_ref().to_path_buf()
-            }
-        };
+        // Canonicalization fails if the file could not be read in the first place, but also if
+        // it was removed after it was read. In both cases keep the path as given.
+        let file_path = canonical_or_same(file_path.as_ref());
         SourceFile {
             file_path,
             syntax_ast,
